@@ -5,7 +5,7 @@ open PyPhysim.Proto PyPhysim.C12
 /-!
 Driver of the C12 model at exact rationals.
 
-`wf gains=<p/q,...> P=<p/q> N=<p/q> Es=<p/q>`
+`wf gains=<p/q,...> P=<p/q> [N=<p/q>] [Es=<p/q>]`   (N / Es absent = argument left at its default 1.0)
    → `p=<p/q,...> mu=<p/q> kept=<k> margin=<p/q>`  |  `error:<PyErr>`
 
 `p`, `mu` are the value of `PyPhysim.C12.doWFRat` (= `doWF` at `Rat`).  `kept` (number of non-zero entries of
@@ -33,8 +33,10 @@ def margin (P : Rat) (tests : List (Rat × Rat)) (performed : Nat) : Rat :=
     (fun m t => let d := ratAbs (t.1 - P) / ratMax (ratMax (ratAbs t.1) (ratAbs P)) (ratAbs t.2)
                 if d < m then d else m) 1
 
-def showRes (g : List Rat) (P N Es : Rat) : String :=
-  match doWFRat g P N Es with
+def showRes (g : List Rat) (P : Rat) (oN oEs : Option Rat) : String :=
+  let N := oN.getD 1      -- bookkeeping (margin) only; the value comes from `doWFCallRat`
+  let Es := oEs.getD 1
+  match doWFCallRat g P oN oEs with
   | .error e => "error:" ++ toString e
   | .ok (p, mu) =>
     let k := (p.filter (fun x => x != 0)).length
@@ -42,11 +44,18 @@ def showRes (g : List Rat) (P N Es : Rat) : String :=
     "p=" ++ showList showRat p ++ " mu=" ++ showRat mu ++ " kept=" ++ toString k
       ++ " margin=" ++ showRat (margin P (stageTests N Es (argsortAsc g)) performed)
 
+/-- an optional `key=value`: absent → `some none` (argument left at its default),
+    present and well formed → `some (some v)`, malformed → `none` -/
+def optRat (toks : List String) (key : String) : Option (Option Rat) :=
+  match kv toks key with
+  | none => some none
+  | some t => (parseRat? t).map some
+
 def handle : List String → String
   | "wf" :: rest =>
     match (kv rest "gains").bind (parseRatList? ·), (kv rest "P").bind parseRat?,
-          (kv rest "N").bind parseRat?, (kv rest "Es").bind parseRat? with
-    | some g, some P, some N, some Es => showRes g P N Es
+          optRat rest "N", optRat rest "Es" with
+    | some g, some P, some oN, some oEs => showRes g P oN oEs
     | _, _, _, _ => "bad-op"
   | _ => "bad-op"
 
